@@ -594,6 +594,14 @@ impl<T> Receiver<T> {
     pub fn is_empty(&self) -> bool {
         self.len() == 0
     }
+    pub fn is_full(&self) -> bool {
+        sched_point();
+        let g = lock(&self.ch);
+        match g.cap {
+            None => false,
+            Some(c) => g.q.len() >= c,
+        }
+    }
     pub fn sim_probe(&self) -> Probe<T> {
         Probe {
             ch: self.ch.clone(),
